@@ -4,7 +4,41 @@
 #include <string.h>
 #include "spqlios/commons_private.h"
 #include "spqlios/arithmetic/vec_znx_arithmetic_private.h"
+#include "spqlios/q120/q120_ntt_private.h"
 
 EXPORT uint64_t vh_sizeof_module(void) { return sizeof(MODULE); }
 EXPORT uint64_t vh_module_nn(const MODULE* m) { return m->nn; }
 EXPORT uint64_t vh_module_m(const MODULE* m) { return m->m; }
+
+#include <malloc.h>
+// heap blocks that belong to a module: the module itself and every table it owns. Sizes are the usable sizes of
+// the heap blocks (>= requested size; the slack is never touched by anybody). Returns the number of blocks.
+EXPORT uint64_t vh_module_blocks(const MODULE* m, const void** ptrs, uint64_t* sizes, uint64_t cap) {
+  uint64_t k = 0;
+#define VH_ADD(p)                                      \
+  if ((p) != 0 && k < cap) {                           \
+    ptrs[k] = (const void*)(p);                        \
+    sizes[k] = malloc_usable_size((void*)(p));         \
+    ++k;                                               \
+  }
+  VH_ADD(m);
+  if (m->module_type == FFT64) {
+    VH_ADD(m->mod.fft64.p_fft);
+    VH_ADD(m->mod.fft64.p_ifft);
+    VH_ADD(m->mod.fft64.p_conv);
+    VH_ADD(m->mod.fft64.p_reim_to_znx);
+    VH_ADD(m->mod.fft64.p_addmul);
+    VH_ADD(m->mod.fft64.mul_fft);
+  } else {
+    const q120_ntt_precomp* t[2] = {m->mod.q120.p_ntt, m->mod.q120.p_intt};
+    for (int i = 0; i < 2; ++i) {
+      if (!t[i]) continue;
+      VH_ADD(t[i]);
+      VH_ADD(t[i]->level_metadata);
+      VH_ADD(t[i]->powomega);
+    }
+  }
+#undef VH_ADD
+  return k;
+}
+EXPORT uint64_t vh_block_size(const void* p) { return p ? malloc_usable_size((void*)p) : 0; }
